@@ -840,7 +840,14 @@ func genLease4(r *Rng) (leaseScenario, []string) {
 			if r.Chance(1, 4) {
 				aform = leaseGenSidForm(r)
 			}
-			sc.ack = pktSemi(leasePkt4(r, 5, id, aform, yi, leaseXid, hw, 2))
+			// the acknowledged address is the leased one; it need not be the offered
+			// one (seeded change C13-2: a renewal built from the lease's OFFER)
+			ayi := yi
+			if r.Bool() {
+				ayi = net.IP{10, 0, 0, byte(r.Range(51, 250))}
+				tags = append(tags, "lease-ack-other-address")
+			}
+			sc.ack = pktSemi(leasePkt4(r, 5, id, aform, ayi, leaseXid, hw, 2))
 			tags = append(tags, "lease-ack-"+leaseSidFormNames[aform])
 		}
 		if sc.kind != "release" {
